@@ -31,8 +31,9 @@ Step == /\ ~done /\ Len(prog) < MaxSyms
         /\ UNCHANGED <<done, pr>>
 End  == /\ ~done /\ (ExactLen => Len(prog) = MaxSyms)
         /\ done' = TRUE
-        /\ prog' = Append(prog, [k |-> "eos"])
-        /\ dec' = dec \o Decisions(cs, [k |-> "eos"], pr[1], pr[2], pr[3])
+        /\ \E e \in {[k |-> "eos"]} \cup {[k |-> "eosn", n |-> n] : n \in {3, 10, 273}} :
+             /\ prog' = Append(prog, e)
+             /\ dec' = dec \o Decisions(cs, e, pr[1], pr[2], pr[3])
         /\ UNCHANGED <<cs, pr>>
 Stutter == done /\ UNCHANGED vars
 Next == Step \/ End \/ Stutter
@@ -48,7 +49,7 @@ IndexBounds == \A j \in 1..Len(dec) : InBounds(dec[j], pr[1], pr[2])
 StateRange  == cs.st \in 0..11 /\ \A j \in 1..4 : cs.rep[j] >= 0
 \* every symbol's decision list starts with the is-match bit of the state before it
 \* and the state automaton only moves along the format's table (checked on the last step)
-AutomatonOK == cs.st \in {0,1,2,3,4,5,6} => (prog = <<>> \/ prog[Len(prog)].k \in {"lit", "eos"})
+AutomatonOK == cs.st \in {0,1,2,3,4,5,6} => (prog = <<>> \/ prog[Len(prog)].k \in {"lit", "eos", "eosn"})
 
 \* ---- export ----
 Emit == done => PrintT(<<"PROG", ToJson([lc |-> pr[1], lp |-> pr[2], pb |-> pr[3], prog |-> prog,
